@@ -651,43 +651,108 @@ def bl3(ctx, R):
                 R.violation(key, where, why)
             else:
                 R.undecided(key, where, why)
-    # (d) per-segment derivations use the segment's own mask with the right polarity
+    # (d) per-segment derivations use the segment's own mask with the right polarity.  Derivations are recognised in normal form
+    #     ('>' / '<' selected by MASK & toc_properties[flag]), whether written as a conditional expression, an if statement or a helper.
+    from .sym import Sym, show, alpha
+    from .sem import match, W, find
+
+    def canonical_derivation(v):
+        """-> (mask, flag name, value if set, value if clear) for a byte-order selection in normal form"""
+        if not (isinstance(v, tuple) and v and v[0] == "phi"):
+            return None
+        t, a, b = v[1], v[2], v[3]
+        if isinstance(t, tuple) and t and t[0] == "cmp" and t[1] == "!=" and t[3] == ("const", 0):
+            t = t[2]
+        if isinstance(t, tuple) and t and t[0] == "call" and t[1] == "bool" and t[2]:
+            t = t[2][0]
+        if not (isinstance(t, tuple) and t and t[0] == "binop" and t[1] == "&" and len(t[2]) == 2):
+            return None
+        flag = [x for x in t[2] if match(("sub", W(), ("const", W("f"))), x) is not None and find(x, ("global", "toc_properties"))]
+        if not flag or a[0] != "const" or b[0] != "const":
+            return None
+        mask = [x for x in t[2] if x is not flag[0]][0]
+        return mask, flag[0][2][1], a[1], b[1]
+
+    def own_mask_canon(mask):
+        if mask == ("self", "toc_mask"):
+            return True
+        m = mask
+        if m[0] in ("item", "sub"):
+            m = m[1]
+        return m[0] == "call" and str(m[1]).split(".")[-1] in ("unpack", "_struct_unpack", "unpack_from")
     derivs = 0
+    deriving = set()
     for fi in _funcs_in(prog, READ_SIDE):
+        if fi.module.name == "common":
+            continue
+        sy = None
+        seen_forms = set()
         for nnode in walk_body(fi.node):
-            is_der, mask, pol = is_big_endian_derivation(prog, fi.module, nnode) if isinstance(nnode, ast.IfExp) else (False, None, None)
-            if not is_der:
-                continue
-            derivs += 1
-            key = "%s::byte-order derivation" % fi.qual
-            where = fi.where(nnode)
-            if not pol:
-                R.violation(key, where, "`%s`: wrong ToC flag or swapped '>'/'<'" % unparse(nnode))
-            elif not flow.own_mask(fi, mask):
-                R.violation(key, where, "byte order derived from `%s`, which is not this segment's own ToC mask" % unparse(mask))
-            else:
-                R.ok(key, where, "'>' iff own toc_mask & kTocBigEndian")
+            vals = []
+            if isinstance(nnode, ast.Assign) or (isinstance(nnode, ast.Return) and nnode.value is not None):
+                vals = [nnode.value]
+            elif isinstance(nnode, ast.Call):
+                vals = [a for a in list(nnode.args) + [k.value for k in nnode.keywords]
+                        if any(isinstance(x, (ast.IfExp, ast.Call, ast.Name)) for x in ast.walk(a)) and not isinstance(a, (ast.Lambda, ast.GeneratorExp, ast.ListComp))]
+            for e in vals:
+                sy = sy or Sym(prog, fi, fi.cls)
+                env, _g = sy.env_at(nnode)
+                top = sy.expr(e, env)
+                from .sym import collect as _collect
+                cands = _collect(top, lambda x: canonical_derivation(x) is not None)
+                for v in cands[:1]:
+                  cd = canonical_derivation(v)
+                  if cd is None:
+                    continue
+                  form = alpha(v)
+                  if form in seen_forms:
+                    continue
+                  seen_forms.add(form)
+                  derivs += 1
+                  deriving.add(fi.qual)
+                  mask, flag, a, b = cd
+                  key = "%s::byte-order derivation" % fi.qual
+                  where = fi.where(nnode)
+                  if not (flag == "kTocBigEndian" and a == ">" and b == "<"):
+                    R.violation(key, where, "`%s`: wrong ToC flag or swapped '>'/'<'" % show(alpha(v))[:120])
+                  elif not own_mask_canon(mask):
+                    R.violation(key, where, "byte order derived from `%s`, which is not this segment's own ToC mask" % show(alpha(mask))[:100])
+                  else:
+                    R.ok(key, where, "'>' iff own toc_mask & kTocBigEndian")
     if derivs < 2:
         raise AnchorMissing("byte-order derivations from the ToC mask (found %d, expected >= 2)" % derivs)
     # the lead-in parse and the metadata parse each derive the byte order themselves
     for q in ("reader.TdmsReader._read_lead_in", "tdms_segment.TdmsSegment.read_segment_objects"):
-        fi = prog.func(q)
-        has = any(isinstance(x, ast.IfExp) and is_big_endian_derivation(prog, fi.module, x)[0] for x in walk_body(fi.node))
-        if not has:
+        if q not in deriving:
             raise AnchorMissing("%s: byte-order derivation from the ToC mask" % q)
     # data reader constructors receive a derived endianness (third constructor parameter)
     gdr = prog.func("tdms_segment.TdmsSegment._get_data_reader")
     base = prog.cls("base_segment.BaseDataReader")
-    ctor_calls = [c for c in walk_body(gdr.node) if isinstance(c, ast.Call) and prog.resolve_class(gdr.module, c.func) is not None
-                  and prog.is_subclass(prog.resolve_class(gdr.module, c.func), base)]
-    if len(ctor_calls) < 3:
+    ctor_sites = []       # (call, class)
+    for c in walk_body(gdr.node):
+        if not isinstance(c, ast.Call):
+            continue
+        k = prog.resolve_class(gdr.module, c.func) if isinstance(c.func, (ast.Name, ast.Attribute)) else None
+        if k is not None and prog.is_subclass(k, base):
+            ctor_sites.append((c, k))
+        elif isinstance(c.func, ast.Name):
+            # reader_class = ClassA / ClassB / ...;  reader_class(...)
+            ks = []
+            for n in walk_body(gdr.node):
+                if isinstance(n, ast.Assign) and any(isinstance(t, ast.Name) and t.id == c.func.id for t in n.targets):
+                    for v_ in ([n.value.body, n.value.orelse] if isinstance(n.value, ast.IfExp) else [n.value]):
+                        kk = prog.resolve_class(gdr.module, v_) if isinstance(v_, (ast.Name, ast.Attribute)) else None
+                        ks.append(kk)
+            if ks and all(kk is not None and prog.is_subclass(kk, base) for kk in ks):
+                ctor_sites += [(c, kk) for kk in ks]
+    ctor_calls = [c for c, _k in ctor_sites]
+    if len(ctor_sites) < 3:
         raise AnchorMissing("tdms_segment.TdmsSegment._get_data_reader: three data reader constructions")
     binit = prog.func("base_segment.BaseDataReader.__init__")
     like_params = [p for p in binit.params if (binit.qual, p) in flow.like]
     if not like_params:
         raise AnchorMissing("base_segment.BaseDataReader.__init__: endianness parameter")
-    for c in ctor_calls:
-        cls_ = prog.resolve_class(gdr.module, c.func)
+    for c, cls_ in ctor_sites:
         init = prog.lookup(cls_, "__init__")[2]
         bound = dict(flow._bind(init, c, "ctor"))
         for p in [p for p in init.params if (init.qual, p) in flow.like]:
